@@ -370,3 +370,142 @@ func init() {
 		return e.Failures
 	}})
 }
+
+// ---------------------------------------------------------------------------
+// C14 (H): the read strategy is changed at run time (service-configuration update).
+//
+// alphabet  strategy := MASTER | REPLICA | BOTH ; reads (GET, HGETALL on two keys of two masters, several
+//           virtual clock steps each) ; write ; periodic slot refresh
+// bound     every history of length <= 4 (quick) / 5 (thorough), from each initial strategy
+// oracle    a write arrives at the owning master; a read arrives inside the owner's group, and at the master
+//           itself whenever the strategy in force when it was issued is MASTER
+// ---------------------------------------------------------------------------
+
+var c14sOps = []string{"strategy=MASTER", "strategy=REPLICA", "strategy=BOTH", "reads", "write", "periodic-refresh"}
+
+type c14sCase struct {
+	Init int   `json:"init"`
+	Ops  []int `json:"ops"`
+}
+
+func (c c14sCase) String() string {
+	s := []string{"initial " + pbredis.ReadStrategy(c.Init).String()}
+	for _, o := range c.Ops {
+		s = append(s, c14sOps[o])
+	}
+	return strings.Join(s, ", ")
+}
+
+func c14strategyBody(cs c14sCase) func() {
+	return func() {
+		cl := cluster.New(2, 2, 2)
+		cur := pbredis.ReadStrategy(cs.Init)
+		s := vfStartStack(cl, vfSvcConfig(cur, nil, 0))
+		c := s.NewClient("c0")
+		keys := []string{cl.KeyInGroup("k", 0, 0), cl.KeyInGroup("k", 1, 0)}
+		issue := func(cmds [][]string) {
+			for _, cmd := range cmds {
+				mark := len(cl.Log)
+				if _, err := c.Do(cmd...); err != nil {
+					sched.Fail("connection-failed / strategy update", err.Error())
+					return
+				}
+				sched.WaitQuiescent()
+				for _, e := range cl.DataCmds(mark) {
+					owner := cl.OwnerOfKey(e.Args[1])
+					node := cl.NodeByAddrID(e.Node)
+					write := redis5[strings.ToLower(e.Args[0])]
+					switch {
+					case write && node != owner:
+						sched.Fail("write-command-sent-to-non-master / after a strategy update", fmt.Sprintf("history [%s]: %q arrived at %s", cs, e.Args, e.Node))
+					case node != owner && node.MasterOf != owner:
+						sched.Fail("read-command-sent-outside-slot-owner-group / after a strategy update", fmt.Sprintf("history [%s]: %q arrived at %s", cs, e.Args, e.Node))
+					case node != owner && cur == pbredis.ReadStrategy_MASTER:
+						sched.Fail("read-sent-to-replica-although-strategy-is-MASTER / after a strategy update", fmt.Sprintf("history [%s]: %q arrived at replica %s while the strategy in force is MASTER", cs, e.Args, e.Node))
+					}
+				}
+			}
+		}
+		for _, op := range cs.Ops {
+			switch op {
+			case 0, 1, 2:
+				cur = pbredis.ReadStrategy(op)
+				if err := s.p.OnSvcConfigUpdate(vfSvcConfig(cur, nil, 0)); err != nil {
+					sched.Fail("config-update-rejected", err.Error())
+				}
+				sched.WaitQuiescent()
+			case 3:
+				for i := 0; i < 3; i++ {
+					sched.AdvanceTime(1)
+					issue([][]string{{"GET", keys[0]}, {"GET", keys[1]}, {"HGETALL", keys[0]}})
+				}
+			case 4:
+				issue([][]string{{"SET", keys[0], "v"}, {"SET", keys[1], "w"}})
+			case 5:
+				s.RefreshRound()
+				sched.AdvanceTime(int64(slotsRefFreq) + 1)
+				sched.WaitQuiescent()
+				s.RefreshRound()
+			}
+		}
+		sched.SetOutcome("ok")
+	}
+}
+
+func c14strategy(env sched.Env) *sched.Report {
+	rep := &sched.Report{Outcomes: map[string]int64{}, Complete: true}
+	sigs := map[string]bool{}
+	depth := 4
+	if env.Tier == "thorough" {
+		depth = 5
+	}
+	n := 0
+	var rec func(init int, ops []int)
+	rec = func(init int, ops []int) {
+		if len(ops) > 0 && ops[len(ops)-1] == 3 { // histories ending in reads
+			n++
+			if n%env.NShards == env.Shard {
+				cs := c14sCase{init, append([]int{}, ops...)}
+				sched.Progress(cs)
+				e := sched.RunOnce(nil, sched.Options{MaxSteps: 2000000}, c14strategyBody(cs))
+				rep.Execs++
+				rep.Transitions += int64(len(ops))
+				rep.Outcomes[e.Outcome]++
+				if e.EndWhy != "main-returned" && len(e.Failures) == 0 {
+					e.Failures = append(e.Failures, sched.Failure{Sig: "execution-ended-" + e.EndWhy, Detail: cs.String()})
+				}
+				for _, f := range e.Failures {
+					if !sigs[f.Sig] {
+						sigs[f.Sig] = true
+						rep.Violations = append(rep.Violations, sched.CustomViolation("C14/strategy-update", f.Sig, f.Detail, cs))
+					}
+				}
+			}
+		}
+		if len(ops) == depth {
+			return
+		}
+		for op := range c14sOps {
+			rec(init, append(ops, op))
+		}
+	}
+	for init := 0; init < 3; init++ {
+		rec(init, nil)
+	}
+	rep.States, rep.Distinct = rep.Execs, rep.Execs
+	rep.Rule = "distinct (initial strategy, history) pairs"
+	rep.CustomSamples = []interface{}{c14sCase{1, []int{3, 0, 3}}.String()}
+	return rep
+}
+
+func init() {
+	sched.Register(&sched.Scenario{Name: "C14/strategy-update", Custom: c14strategy, ReplayCustom: func(in json.RawMessage) []sched.Failure {
+		var cs c14sCase
+		json.Unmarshal(in, &cs)
+		e := sched.RunOnce(nil, sched.Options{MaxSteps: 2000000}, c14strategyBody(cs))
+		for _, f := range e.Failures {
+			fmt.Printf("%s: %s\n", f.Sig, f.Detail)
+		}
+		return e.Failures
+	}})
+}
